@@ -15,6 +15,7 @@
     lookups_subset_extract_partial choose_identity msg_lookup_extracted identity_transparent_msg
     choose_lookup_extracted choose_outer_text_not_looked_up msg_lookup_extracted_elem
     code_calls_extracted identity_transparent_msg_sub choose_extract_succeeds
+    sub_attrs_not_extracted wide_of_plain
 -/
 import Genshi.Lemmas.I18nTree
 import Genshi.Lemmas.I18nStarts
@@ -22,6 +23,7 @@ import Genshi.Lemmas.I18nLookups
 import Genshi.Lemmas.I18nChoose
 import Genshi.Lemmas.I18nMsgLookup
 import Genshi.Lemmas.I18nLookups2
+import Genshi.Lemmas.I18nLookups3
 import Genshi.Lemmas.I18nChooseLookup
 import Genshi.Lemmas.I18nCode
 import Genshi.Lemmas.I18nPassEq
@@ -144,28 +146,106 @@ theorem reorder_is_permutation (ds : List Dir) : (reorder ds).dirs.Perm ds := re
     Full statement: every message id containing a letter that rendering passes to the
     catalogue is among the messages `Translator.extract` reports for the same stream.
     Proved, by a simultaneous induction over `Translator.__call__` and `Translator.extract`
-    with the skip counter shared, for every template stream all of whose message directives
-    are plain `i18n:msg` directives — `<t i18n:msg="ps">content</t>` or
-    `<i18n:msg params="ps">content</i18n:msg>`, the latter neither starting nor ending with an
-    element (finding C19-msg-element-first-child) — with content free of nested directives
-    and a buffer that can be built (`okMsgList`) — and otherwise any nesting of
-    py: directives, i18n:domain / ctxt / comment (including the loops that edit the directive
-    list under their own iterator), ignored tags, xml:lang, any configuration and context:
+    with the skip counter shared, for every template stream (`WideList`) built from
+      * any nesting of py: directives, i18n:domain / ctxt / comment (including the loops that
+        edit the directive list under their own iterator), ignored tags, xml:lang;
+      * message directives `<t i18n:msg="ps" …>content</t>` or `<i18n:msg params="ps">content</i18n:msg>`
+        (the latter neither starting nor ending with an element: finding
+        C19-msg-element-first-child) that may share their element with any other directives
+        (`i18n:comment`, `i18n:ctxt`, `i18n:domain`, `py:if` …: `OneDir`), whose content is any event
+        list — text, expressions, elements, and **directive-carrying elements** (SUB events) that
+        are quiet: no text with a letter and no included attribute value with a letter in them
+        (what the pass looks up there is not extracted: findings C19-fragments, C19-sub-attrs;
+        witnesses `fragments_looked_up_not_extracted`, `sub_attrs_not_extracted`) and no message
+        directive of their own;
+      * plural choices `<t i18n:choose="n; ps" …> pre <ts i18n:singular="">cS</ts> mid
+        <tp i18n:plural="">cP</tp> post </t>` with white space, comments, code blocks outside the
+        branches (finding C19-choose-outer-text, `choose_outer_text_not_looked_up`) and branch
+        contents whose text outside expressions has no letter and whose directive-carrying
+        elements are quiet (findings C19-fragments, C19-sub-attrs);
+      * message buffers that can be built (as many parameters as expressions, balanced content);
+    for any configuration and context:
       * extraction never raises;
       * every id the translation pass looks up (text nodes, included attributes, also the
-        attributes inside messages) is extracted unless it has no letter;
-      * every message id a message directive looks up while rendering (`msgIdsList`; by
+        attributes inside messages and plural choices) is extracted unless it has no letter;
+      * every message id an `i18n:msg` directive looks up while rendering (`msgIdsW`; by
         `msg_lookup_extracted` the stream the directive sees after the pass gives the same id)
         is extracted.
-    Missing for the full statement: `i18n:choose` (its branches are looked up fragment-wise:
-    finding C19-fragments, witness `fragments_looked_up_not_extracted`; the directive's own
-    look-up: `choose_lookup_extracted`) and message directives with nested directives; the
-    gettext calls made by template code are `code_calls_extracted`. -/
-theorem lookups_subset_extract_partial (cfg : Cfg) (ctx : Ctx) (s : TStream) (h : okMsgList s = true) :
+    The pair of ids an `i18n:choose` hands to `ngettext` is `choose_lookup_extracted`; the
+    gettext calls made by template code are `code_calls_extracted`.  The remaining hypotheses
+    are the recorded findings named above, each with its `decide`-checked witness. -/
+theorem lookups_subset_extract_partial (cfg : Cfg) (ctx : Ctx) (s : TStream) (h : WideList cfg s) :
     ∃ ms, extract cfg s = .ok ms ∧
       (∀ l ∈ lookups cfg ctx true true s, hasLetter l.msgid = true → l.msgid ∈ idsOf ms) ∧
-      (∀ id ∈ msgIdsList s, id ∈ idsOf ms) :=
-  lookups_subset_extract_msgs cfg ctx s h
+      (∀ id ∈ msgIdsW s, id ∈ idsOf ms) :=
+  lookups_subset_extract_wide cfg ctx s h
+
+/-- the streams of the first version of the theorem — message directives alone on their
+    element, content without directive-carrying elements (`okMsgList`, decidable) — are among them -/
+theorem wide_of_plain (cfg : Cfg) (s : TStream) (h : okMsgList s = true) : WideList cfg s :=
+  wide_of_okMsgList cfg s h
+
+/-- `<p i18n:comment="c" i18n:msg="n" py:if="x">Hi <b py:if="y" title="1">${n} 2</b>!</p>`:
+    the message shares its element with two other directives, its content holds a
+    directive-carrying element (quiet: `2`, `title="1"`); the id looked up is extracted -/
+example :
+    WideList Cfg.default
+      [.sub [.comment ['c'], .msg [['n']], .other ['i','f']]
+        [.start ⟨[], ['p']⟩ [], .text ['H','i',' '],
+         .sub [.other ['i','f']] [.start ⟨[], ['b']⟩ [(⟨[], ['t','i','t','l','e']⟩, .str ['1'])], .expr 0 [], .text [' ','2'], .end_ ⟨[], ['b']⟩],
+         .text ['!'], .end_ ⟨[], ['p']⟩]] ∧
+    msgIdsW
+      [.sub [.comment ['c'], .msg [['n']], .other ['i','f']]
+        [.start ⟨[], ['p']⟩ [], .text ['H','i',' '],
+         .sub [.other ['i','f']] [.start ⟨[], ['b']⟩ [(⟨[], ['t','i','t','l','e']⟩, .str ['1'])], .expr 0 [], .text [' ','2'], .end_ ⟨[], ['b']⟩],
+         .text ['!'], .end_ ⟨[], ['p']⟩]] = [['H','i',' ','[','1',':','%','(','n',')','s',' ','2',']','!']] := by
+  refine ⟨⟨Or.inl ⟨[['n']], ⟨by decide, by decide⟩, Or.inl ?_⟩, trivial⟩, by decide +kernel⟩
+  obtain ⟨B, hB⟩ := ok_of_isOk (x := mbAppendList (MB.new [['n']])
+    [.text ['H','i',' '],
+     .sub [.other ['i','f']] [.start ⟨[], ['b']⟩ [(⟨[], ['t','i','t','l','e']⟩, .str ['1'])], .expr 0 [], .text [' ','2'], .end_ ⟨[], ['b']⟩],
+     .text ['!']]) (by decide +kernel)
+  exact ⟨_, _, _, .end_ ⟨[], ['p']⟩, B, rfl, by decide +kernel, rfl, by decide +kernel, hB⟩
+
+/-- `<div i18n:choose="n; n" i18n:domain="d"> <p i18n:singular="" title="One">1 ${n}</p> <!-- c -->
+    <p i18n:plural="">${n} <b py:if="c">2</b></p> </div>`: a plural choice inside the induction;
+    the pass looks up `One` (attribute), `1` and `2` (fragments without letter) -/
+example :
+    WideList Cfg.default
+      [.sub [.domain ['d'], .choose [['n']]]
+        (.start ⟨[], ['d']⟩ [] :: (([.text [' ']] ++
+          .sub [.singular] (.start ⟨[], ['p']⟩ [(⟨[], ['t','i','t','l','e']⟩, .str ['O','n','e'])] ::
+              ([.text ['1',' '], .expr 0 []] ++ [.end_ ⟨[], ['p']⟩])) ::
+          ([.text [' '], .other ['c'], .text [' ']] ++
+          .sub [.plural] (.start ⟨[], ['p']⟩ [] :: ([.expr 0 [], .text [' '],
+              .sub [.other ['i','f']] [.start ⟨[], ['b']⟩ [], .text ['2'], .end_ ⟨[], ['b']⟩]] ++ [.end_ ⟨[], ['p']⟩])) ::
+          [.text [' ']])) ++ [.end_ ⟨[], ['d']⟩]))] ∧
+    (lookups Cfg.default [] true true
+      [.sub [.domain ['d'], .choose [['n']]]
+        (.start ⟨[], ['d']⟩ [] :: (([.text [' ']] ++
+          .sub [.singular] (.start ⟨[], ['p']⟩ [(⟨[], ['t','i','t','l','e']⟩, .str ['O','n','e'])] ::
+              ([.text ['1',' '], .expr 0 []] ++ [.end_ ⟨[], ['p']⟩])) ::
+          ([.text [' '], .other ['c'], .text [' ']] ++
+          .sub [.plural] (.start ⟨[], ['p']⟩ [] :: ([.expr 0 [], .text [' '],
+              .sub [.other ['i','f']] [.start ⟨[], ['b']⟩ [], .text ['2'], .end_ ⟨[], ['b']⟩]] ++ [.end_ ⟨[], ['p']⟩])) ::
+          [.text [' ']])) ++ [.end_ ⟨[], ['d']⟩]))]).map Lookup.msgid = [['O','n','e'], ['1'], ['2']] := by
+  refine ⟨⟨Or.inr (Or.inl ⟨[['n']], ⟨by decide, by decide⟩, ?_⟩), trivial⟩, by decide +kernel⟩
+  obtain ⟨C, hC, hCs⟩ := ok_stack_of_isOk (x := mbAppendList (MB.new [['n']]) [.text ['1',' '], .expr 0 []]) (by decide +kernel)
+  obtain ⟨D, hD, hDs⟩ := ok_stack_of_isOk (x := mbAppendList (MB.new [['n']]) [.expr 0 [], .text [' '],
+      .sub [.other ['i','f']] [.start ⟨[], ['b']⟩ [], .text ['2'], .end_ ⟨[], ['b']⟩]]) (by decide +kernel)
+  exact ⟨_, _, _, _, _, _, _, _, _, _, _, _, _, _, C, D, rfl, by decide, by decide, by decide,
+    by decide +kernel, by decide +kernel, hC, hD, hCs, hDs⟩
+
+/-- C19-sub-attrs: the `title` of a directive-carrying element inside a message is looked up by
+    the pass but not extracted (`MsgDirective.extract` looks at the START events of the top
+    level of its sub-stream only): the quietness hypothesis on such elements cannot be dropped. -/
+theorem sub_attrs_not_extracted :
+    (lookups Cfg.default [] true true [.sub [.msg []] [.start ⟨[], ['p']⟩ [], .text ['a',' '],
+      .sub [.other ['i','f']] [.start ⟨[], ['b']⟩ [(⟨[], ['t','i','t','l','e']⟩, .str ['F','o','o'])], .text ['1'], .end_ ⟨[], ['b']⟩],
+      .end_ ⟨[], ['p']⟩]]).map Lookup.msgid = [['F','o','o'], ['1']] ∧
+    extract Cfg.default [.sub [.msg []] [.start ⟨[], ['p']⟩ [], .text ['a',' '],
+      .sub [.other ['i','f']] [.start ⟨[], ['b']⟩ [(⟨[], ['t','i','t','l','e']⟩, .str ['F','o','o'])], .text ['1'], .end_ ⟨[], ['b']⟩],
+      .end_ ⟨[], ['p']⟩]] = .ok [⟨none, .one (some ['a',' ','[','1',':','1',']']), []⟩] := by
+  refine ⟨by decide +kernel, by decide +kernel⟩
 
 example : okMsgList
     [.start ⟨[], ['d']⟩ [], .text ['H','i'],
